@@ -33,6 +33,9 @@ from .sym import Path, set_path, PathAbort, Escape, term, formula
 VALUE_ERRORS = (ValueError, AssertionError, ArithmeticError, LookupError)
 QUICK_TIMEOUT_MS = int(os.environ.get("PYVC_TIMEOUT_MS", "40000"))
 
+import re as _re
+_SYM_TYPE_IN_MESSAGE = _re.compile(r"\bSym(Int|Bool|List|Map|Bytes|Rat|Str|Seq)\b")
+
 
 class EngineError(Exception):
     pass
@@ -494,6 +497,12 @@ def run_config(contract, cfg, facets="VCSTRN", prime=None, tier="quick", max_pat
             except BaseException as e:
                 if isinstance(e, MemoryError):
                     raise
+                if isinstance(e, (TypeError, AttributeError)) and _SYM_TYPE_IN_MESSAGE.search(str(e)):
+                    # CPython complaining about one of the ENGINE's symbolic stand-ins (an operation on it that the engine
+                    # does not model): a limit of the verifier on this source text, never an exception of the code
+                    res["engine_errors"].append("Unsupported: %s on a symbolic stand-in: %s" % (type(e).__name__, e))
+                    worklist.extend(P.pending)
+                    continue
                 outcome = ("exc", e)
             if not w.target_entered and not contract.probe:
                 res["engine_errors"].append("target function %s was never entered by setup()" % contract.target)
